@@ -241,6 +241,13 @@ func init() {
 				}
 				return
 			}
+			var rp struct {
+				CtrYields bool `json:"ctr_yields"`
+			}
+			if json.Unmarshal(ctx.Replay, &rp) == nil && rp.CtrYields {
+				regReplay(ctx, "deliveries_add_up_to_increments")
+				return
+			}
 			var c c01Case
 			if err := json.Unmarshal(ctx.Replay, &c); err != nil {
 				fatal(err)
@@ -326,7 +333,92 @@ func init() {
 			ctx.Res.Histogram["uncontrolled-concurrent-passes"]++
 		}
 		ctx.Res.Extra["stress_rounds_failed"] = bad
+		// "a report triggered by re-requesting a closed scope": registry cycles (obtain, record, Close,
+		// obtain again) against report passes, with the yield points inside counter.value taking part,
+		// so that the re-request's report and a pass overlap inside one counter; the re-request's report
+		// is that counter's last one (its scope is dropped afterwards). Direct predicate.
+		var regCases []regCase
+		// (a) every schedule with at most two preemptions of (one cycle, one pass): the pass runs p
+		// steps, the application q steps, then the pass to its end, then the application
+		for _, cached := range []bool{false, true} {
+			for p := 0; p <= 12; p++ {
+				for q := 0; q <= 22; q++ {
+					rc := regCase{Cached: cached, Shards: 1, Spell: []B{"a"}, CtrYields: true, Passes: []int{1},
+						Progs: [][]regOp{{{Op: "get"}, {Op: "inc"}, {Op: "inc"}, {Op: "close"}, {Op: "get"}, {Op: "inc"}}}}
+					// the application first obtains the scope (two steps) and records once, so that the pass finds a counter
+					rc.Sched = append(rc.Sched, 0, 0, 0)
+					for i := 0; i < p; i++ {
+						rc.Sched = append(rc.Sched, 1)
+					}
+					for i := 0; i < q; i++ {
+						rc.Sched = append(rc.Sched, 0)
+					}
+					for i := 0; i < 40; i++ {
+						rc.Sched = append(rc.Sched, 1)
+					}
+					regCases = append(regCases, rc)
+				}
+			}
+		}
+		// (b) random pools with sticky schedules
+		nreg := ctx.N(120, 3000)
+		for k := 0; k < nreg; k++ {
+			regCases = append(regCases, c01RegGen(ctx.R))
+		}
+		for k := range regCases {
+			rc := regCases[k]
+			out, _ := c07Exec(&rc, true)
+			cc := rc
+			cc.Sched = out.Sched
+			ctx.Case(cc, "", "closed-scope-re-request-vs-pass", "")
+			if f := regPredicate(&out); f != "" {
+				ctx.Fail("deliveries_add_up_to_increments", "re-request of a closed scope overlapping a report pass inside counter.value: "+f, cc, out)
+			}
+		}
 	}
+}
+
+// c01RegGen: one or two application goroutines running (obtain k, record.., Close, obtain k, record..)
+// cycles on one or two identities, one or two reporting goroutines; sticky random schedule (the same
+// goroutine keeps running with probability 3/4), so that whole call sequences fit between two steps of
+// a pass that is parked inside counter.value.
+func c01RegGen(r *Rng) regCase {
+	c := regCase{Cached: r.Bool(), Shards: 1, San: r.Chance(30), CtrYields: true}
+	ns := r.Range(1, 2)
+	for i := 0; i < ns; i++ {
+		c.Spell = append(c.Spell, c07Spellings[i])
+	}
+	for t, nt := 0, r.Range(1, 2); t < nt; t++ {
+		k := r.Intn(ns)
+		prog := []regOp{{Op: "get", K: k}}
+		for j, nj := 0, r.Range(1, 3); j < nj; j++ {
+			prog = append(prog, regOp{Op: "inc"})
+		}
+		for cyc, ncyc := 0, r.Range(1, 2); cyc < ncyc; cyc++ {
+			if r.Chance(70) {
+				for j, nj := 0, r.Range(0, 2); j < nj; j++ {
+					prog = append(prog, regOp{Op: "inc"})
+				}
+			}
+			prog = append(prog, regOp{Op: "close"}, regOp{Op: "get", K: k})
+			for j, nj := 0, r.Range(0, 2); j < nj; j++ {
+				prog = append(prog, regOp{Op: "inc"})
+			}
+		}
+		c.Progs = append(c.Progs, prog)
+	}
+	for i, ni := 0, r.Range(1, 2); i < ni; i++ {
+		c.Passes = append(c.Passes, r.Range(1, 3))
+	}
+	nt := len(c.Progs) + len(c.Passes)
+	cur := r.Intn(nt)
+	for j := 0; j < 160; j++ {
+		if !r.Chance(75) {
+			cur = r.Intn(nt)
+		}
+		c.Sched = append(c.Sched, cur)
+	}
+	return c
 }
 
 // c01Stress: two incrementing goroutines and three goroutines running report passes at once.
